@@ -116,7 +116,70 @@ def part_obligations(R, L):
         raise HarnessError(f'single-part branch arguments changed: {L["single_part_args"]}')
     R.ob('single-part branch (size <= P) copies the whole file with _copy_file(srcfile, size, destfile)', 'discharged', 0.0,
          {'structural': L['src']['single']}, nontrivial=True)
+    dest_state_obligations(R, L)
     return pre
+
+
+def _apply(effs, exists, length, err):
+    """Sequential effect of file-opening steps on (exists, length); err collects 'this step raises'."""
+    for e in effs:
+        err = z3.Or(err, z3.And(z3.BoolVal(e['exclusive']), exists), z3.And(z3.BoolVal(not e['creates']), z3.Not(exists)))
+        length = z3.If(z3.BoolVal(e['truncates']), 0, z3.If(exists, length, 0))
+        exists = z3.Or(exists, z3.BoolVal(e['creates']))
+    return exists, length, err
+
+
+def dest_state_obligations(R, L):
+    """The destination's prior state is part of the space: old_len = -1 (absent) or the length of an existing file
+    (shorter, equal, longer than the source).  After the copy the file must be exactly `size` bytes long (the bytes
+    below `size` are the source's by the tiling obligations), so whatever creates the file has to truncate it and
+    the per-part opens must neither truncate nor append."""
+    v = L['vars']
+    size, P = v['size'], v['P']
+    old = z3.Int('old_len')
+    exists0, len0 = old >= 0, z3.If(old >= 0, old, 0)
+    mx = lambda a, b: z3.If(a >= b, a, b)
+    cases = [
+        ('multi-part copy', [size >= 0, P >= 1, L['multi'], old >= -1], L['open_multi_create'], L['open_part']),
+        ('single-part copy', [size >= 0, P >= 1, z3.Not(L['multi']), old >= -1], L['open_single'], None),
+    ]
+    for what, pre, create_effs, part_effs in cases:
+        ex, ln, err = _apply(create_effs, exists0, len0, z3.BoolVal(False))
+        # a plain create in append mode writes after the old content: identical only if nothing was left
+        ok_writer = z3.Implies(z3.BoolVal(create_effs[-1]['append']), ln == 0) if part_effs is None else z3.BoolVal(True)
+        if part_effs is not None:
+            # every part re-opens the file: the same effect N >= 2 times, interleaved with writes that end at <= size
+            ex2, ln2, err = _apply(part_effs, ex, ln, err)
+            ok_writer = z3.And(*[z3.BoolVal(not e['truncates'] and not e['append']) for e in part_effs])
+            ex = ex2
+        final_len = mx(ln, size)
+        claim = z3.And(z3.Not(err), ex, ok_writer, final_len == size)
+        name = (f'destination state, {what}: for an absent or existing (shorter / equal / longer) destination the file ends '
+                f'up exactly size bytes long and no open step fails or discards earlier parts')
+        r, m, dt, s = _check(pre, claim)
+        reach = _sat(pre + [old > size]) == 'sat' and _sat(pre + [old == -1]) == 'sat'
+        det = {'create_step': [e['how'] for e in create_effs], 'part_step': [e['how'] for e in part_effs or []]}
+        if r == 'unsat':
+            R.ob(name, 'discharged' if reach else 'not_discharged', dt, det, nontrivial=reach)
+        elif r == 'sat':
+            for extra in ([old > size, size >= 1], [size >= 1], []):
+                s2 = z3.Solver()
+                s2.add(*pre)
+                s2.add(z3.Not(claim), size <= 60, P <= 12, old <= 90, *extra)
+                if str(s2.check()) == 'sat':
+                    m = s2.model()
+                    break
+            vals = {'size': m.eval(size, model_completion=True).as_long(), 'P': m.eval(P, model_completion=True).as_long(),
+                    'BUF': 4, 'old_len': m.eval(old, model_completion=True).as_long()}
+            rep = _replay_parts(vals)
+            if not rep['bad']:
+                raise HarnessError(f'{name}: counterexample {vals} does not reproduce on the real code: {rep}')
+            st = R.finding('copy-onto-existing-destination-not-identical',
+                           f'{what} with size={vals["size"]} part_size={vals["P"]} onto a destination of length '
+                           f'{vals["old_len"]} ({det}): {rep["why"]}', {'kind': 'parts', 'vals': vals})
+            R.ob(name, st, dt, {'witness': vals, **det}, nontrivial=True)
+        else:
+            R.ob(name, 'not_discharged', dt, {'solver': r})
 
 
 def _small(vals):
@@ -130,13 +193,16 @@ def _replay_parts(vals):
         # same residues, smaller numbers: keep P and size mod P, cap the number of parts
         return {'bad': False, 'why': 'model too large to execute'}
     try:
-        rec = PP.concrete_run(vals['size'], vals['P'], max(1, min(vals.get('BUF', 8), 1 << 20)))
+        old = vals.get('old_len')
+        rec = PP.concrete_run(vals['size'], vals['P'], max(1, min(vals.get('BUF', 8), 1 << 20)),
+                              None if old is None or old < 0 else old)
     except HarnessError as e:
         return {'bad': True, 'why': str(e)}
     except Exception as e:
         return {'bad': True, 'why': f'{type(e).__name__}: {e}'}
-    return {'bad': not rec['identical'], 'why': 'destination differs from source' if not rec['identical'] else 'identical',
-            'rec': {'num_parts': rec['num_parts'], 'parts': rec['parts'][:6]}}
+    return {'bad': not rec['identical'], 'why': (f'destination differs from source (destination length {rec["dest_len"]}, '
+                                                 f'source {vals["size"]})') if not rec['identical'] else 'identical',
+            'rec': {'num_parts': rec['num_parts'], 'parts': rec['parts'][:6], 'opens': rec['opens'][:3]}}
 
 
 def validate_lift(R, L, pre):
@@ -188,6 +254,25 @@ def validate_lift(R, L, pre):
             if not ok or not rec['identical']:
                 raise HarnessError(f'lifted terms disagree with the real coroutine at size={sz} P={p} BUF={b}: {rec}')
             R.validation_points += 1
+            # the same point onto pre-existing destinations: shorter, equal, longer than the source
+            effs = L['open_multi_create'] if ev(L['multi']) else L['open_single']
+            lifted_trunc = any(e['truncates'] for e in effs)
+            for old in sorted({max(0, sz - 3), sz, sz + 1, sz + 17}):
+                try:
+                    rec2 = PP.concrete_run(sz, p, b, old)
+                except HarnessError:
+                    raise
+                except Exception as e:
+                    raise HarnessError(f'copy onto an existing destination of length {old} failed at size={sz} P={p}: '
+                                       f'{type(e).__name__}: {e}')
+                seen_trunc = rec2['len_after_first_open'] == 0
+                if old > 0 and seen_trunc != lifted_trunc:
+                    raise HarnessError(f'lifted open effects say truncates={lifted_trunc}, the instrumented open saw '
+                                       f'length {rec2["len_after_first_open"]} after the first open ({rec2["opens"][:2]})')
+                if rec2['identical'] != (lifted_trunc or old <= sz) or (not rec2['identical'] and lifted_trunc):
+                    raise HarnessError(f'destination-state model disagrees with the real code: size={sz} P={p} old={old} '
+                                       f'identical={rec2["identical"]} truncates={lifted_trunc}')
+                R.validation_points += 1
             R.sample({'region': rname, 'size': sz, 'part_size': p, 'buffer': b, 'parts': rec['parts'][:4],
                       'bytes_identical_in_concrete_run': rec['identical']})
 
@@ -268,7 +353,8 @@ def decision_obligations(R):
 
 def run(R):
     from harness import C22_parts as PP
-    R.bounds = {'(a) part arithmetic': 'all integers size > part_size >= 1, BUFFER_SIZE >= 1, 0 <= i < n_parts, 1 <= n <= size_i (no bound)',
+    R.bounds = {'(a) part arithmetic': 'all integers size > part_size >= 1, BUFFER_SIZE >= 1, 0 <= i < n_parts, 1 <= n <= size_i; '
+                                       'destination absent or existing with any length old_len >= 0 (no bound)',
                 '(b) decision code': 'source type file/dir/both/none x dest type file/dir/none x dest/basename type x trailing '
                                      'slashes x treat_dest_as x single/list source x answer delays of the three FS '
                                      'queries; fixed 2-file source tree; one transfer'}
@@ -278,6 +364,10 @@ def run(R):
         'coroutine at the translator-validation points)',
         '(a) tiling follows from: first start 0, every part non-empty, consecutive parts contiguous, last ends at size '
         '(induction over i); read-loop coverage likewise by induction over the counter',
+        '(a) destination prior state: the open steps of LocalAsyncFS.create / multi_part_create / create_part are read '
+        'from the AST (builtin open mode or os.open flags, also when handed to blocking_to_async) and given POSIX '
+        'semantics (w: create+truncate, r+: neither, a: append, x/O_EXCL: fail if present); checked each run against an '
+        'instrumented in-memory open/os.open on pre-existing shorter, equal and longer destinations',
         '(a) stream semantics assumed: destf.write appends at the current position starting from the seek offset; '
         'open_from(off, length=k) + readexactly(k) yields bytes [off, off+k) (that is property C23)',
         '(b) router FS replaced by an oracle answering statfile / listfiles / staturl / create / makedirs from the '
